@@ -899,7 +899,10 @@ class Engine:
                     if r is not None: vals |= r
                     elif not any(w.eq(u) for u in terms): terms.append(w)
                     if len(vals) + len(terms) > cap: vals = None; break
-                if vals is not None: out = sorted(vals) + terms
+                if vals is not None:
+                    extra = s.pre_run_values(e)          # values learnt by CEGAR widening / pre-runs
+                    if extra: vals |= extra
+                    out = sorted(vals) + terms
         finally: st.pop()
         if out is None:
             out = s.pre_run_values(e)
